@@ -80,7 +80,7 @@ func (f *fakeReceiver) count() (n int, hasErr bool) {
 }
 
 type netRig struct {
-	h1, h2 host.Host
+	h1, h2, h3 host.Host
 	recv   *fakeReceiver
 	panics int
 	mu     sync.Mutex
@@ -96,10 +96,14 @@ func newRig() (*netRig, error) {
 	if err != nil {
 		return nil, err
 	}
+	h3, err := mn.GenPeer()
+	if err != nil {
+		return nil, err
+	}
 	if err := mn.LinkAll(); err != nil {
 		return nil, err
 	}
-	rig := &netRig{h1: h1, h2: h2, recv: &fakeReceiver{wake: make(chan struct{}, 1)}}
+	rig := &netRig{h1: h1, h2: h2, h3: h3, recv: &fakeReceiver{wake: make(chan struct{}, 1)}}
 	n2 := gsnet.NewFromLibp2pHost(h2, gsnet.PanicCallback(func(recovered interface{}, debugStackTrace string) {
 		rig.mu.Lock()
 		rig.panics++
@@ -107,6 +111,9 @@ func newRig() (*netRig, error) {
 	}))
 	n2.SetDelegate(rig.recv)
 	if _, err := mn.ConnectPeers(h1.ID(), h2.ID()); err != nil {
+		return nil, err
+	}
+	if _, err := mn.ConnectPeers(h3.ID(), h2.ID()); err != nil {
 		return nil, err
 	}
 	return rig, nil
@@ -164,6 +171,100 @@ func (rig *netRig) settle(wantErr bool, wantMsgs int) {
 	}
 }
 
+// probeWithin writes a complete valid message on a fresh stream from `from` and reports whether the
+// node delivered it within the watchdog time.
+func (rig *netRig) probeWithin(from host.Host, probe []byte, want string, d time.Duration) (bool, string) {
+	ctx, cancel := context.WithTimeout(context.Background(), d)
+	defer cancel()
+	s, err := from.NewStream(ctx, rig.h2.ID(), gsnet.ProtocolGraphsync_2_0_0)
+	if err != nil {
+		return false, "cannot open a stream: " + err.Error()
+	}
+	defer s.Reset()
+	go func() {
+		if _, err := s.Write(probe); err == nil {
+			_ = s.CloseWrite()
+		}
+	}()
+	deadline := time.After(d)
+	for {
+		rig.recv.mu.Lock()
+		for _, e := range rig.recv.events {
+			if !e.isErr && nf(e.msg) == want {
+				rig.recv.mu.Unlock()
+				return true, ""
+			}
+		}
+		rig.recv.mu.Unlock()
+		select {
+		case <-rig.recv.wake:
+		case <-time.After(10 * time.Millisecond):
+		case <-deadline:
+			return false, fmt.Sprintf("not delivered within %s", d)
+		}
+	}
+}
+
+// stall: "nor stops serving other streams". One stream sends a length prefix and only part of the
+// announced frame and then stays open and silent; complete valid messages on other streams (same
+// peer, other peer) must still be delivered promptly. The watchdog (4 s) is far above the normal
+// latency (milliseconds) and below the handler's 10 s read deadline, after which a node that was
+// blocked by the stalled stream would recover by itself.
+func (rig *netRig) stall(out *reg.Out, partial, probe []byte, probeNF string) string {
+	ctx, cancel := context.WithTimeout(context.Background(), 10*time.Second)
+	defer cancel()
+	rig.recv.take()
+	s1, err := rig.h1.NewStream(ctx, rig.h2.ID(), gsnet.ProtocolGraphsync_2_0_0)
+	if err != nil {
+		out.Fail("net-serve", "could not open a stream to the node: %v", err)
+		return "no-stream"
+	}
+	if _, err := s1.Write(partial); err != nil {
+		out.Fail("net-serve", "could not write to the stream: %v", err)
+	}
+	time.Sleep(30 * time.Millisecond) // let the handler get into the frame body
+	res := "served"
+	for _, from := range []struct {
+		name string
+		h    host.Host
+	}{{"the same peer", rig.h1}, {"another peer", rig.h3}} {
+		rig.recv.take()
+		ok, why := rig.probeWithin(from.h, probe, probeNF, 4*time.Second)
+		if !ok {
+			out.Fail("other-stream-blocked", "while one stream is stalled in the middle of a frame, a complete valid message from %s on another stream was %s", from.name, why)
+			res = "blocked"
+		}
+	}
+	_ = s1.Reset()
+	// the stalled stream now fails: wait for its ReceiveError so that it does not leak into the next case
+	deadline := time.After(3 * time.Second)
+	for {
+		_, hasErr := rig.recv.count()
+		if hasErr {
+			break
+		}
+		select {
+		case <-rig.recv.wake:
+		case <-time.After(10 * time.Millisecond):
+		case <-deadline:
+		}
+		if _, hasErr := rig.recv.count(); hasErr {
+			break
+		}
+		select {
+		case <-deadline:
+			out.Fail("net-error-report", "the stalled stream was reset by its writer but no ReceiveError was reported")
+			rig.recv.take()
+			return res
+		default:
+		}
+	}
+	time.Sleep(5 * time.Millisecond)
+	rig.recv.take()
+	out.Cov("net:stall-" + res)
+	return res
+}
+
 var probeDesc = []string{"req", "x000102030405060708090a0b0c0d0e0f", "c", "0", "-", "N", "0"}
 
 func RunNet(cases []reg.Case, out *reg.Out) {
@@ -189,6 +290,16 @@ func RunNet(cases []reg.Case, out *reg.Out) {
 		for _, op := range c.Ops {
 			if op[0] == "hash" {
 				out.Line("ok")
+				continue
+			}
+			if op[0] == "stall" && len(op) == 2 {
+				b, err := unhx(op[1])
+				if err != nil {
+					out.Line("bad-op")
+					continue
+				}
+				out.Cov("op:stall")
+				out.Line("%s", rig.stall(out, b, probe, probeNF))
 				continue
 			}
 			if op[0] != "net" || len(op) != 2 {
@@ -308,7 +419,7 @@ func GenNet(seed int64, n int, tier string, w *bufio.Writer) {
 		}
 		_, hl := binary.Uvarint(good)
 		payload := good[hl:]
-		switch r.Intn(20) {
+		switch r.Intn(22) {
 		case 0, 1, 2:
 			if k == 0 {
 				kind = "empty"
@@ -381,11 +492,33 @@ func GenNet(seed int64, n int, tier string, w *bufio.Writer) {
 					kind = "clean"
 				}
 			}
+		case 20, 21: // a complete valid message FOLLOWED BY EXTRA BYTES inside the same frame
+			var extra []byte
+			switch r.Intn(3) {
+			case 0:
+				extra = []byte{0}
+			case 1:
+				extra = rndBytes(r, 1+r.Intn(6))
+			default:
+				extra = payload // a second message smuggled into the frame
+			}
+			all = append(all, frameOf(append(append([]byte{}, payload...), extra...))...)
+			end, kind = "err", "trailing-in-frame"
 		case 12, 13: // a complete frame whose DAG-CBOR content stops early (CBOR is prefix-free: never valid)
 			if len(payload) > 1 {
 				all = append(all, frameOf(payload[:1+r.Intn(len(payload)-1)])...)
 				end, kind = "err", "cbor-cut"
 			}
+		}
+		if i%50 == 1 {
+			// a stream that stalls in the middle of a frame must not keep other streams from being served
+			cut := hl
+			if r.Intn(3) > 0 && len(payload) > 1 {
+				cut = hl + 1 + r.Intn(len(payload)-1)
+			}
+			emit(w, "case n%d stall", i)
+			emit(w, "stall %s", hx(good[:cut]))
+			continue
 		}
 		if i == 0 {
 			// one frame whose payload is exactly the size limit: must be delivered
